@@ -338,25 +338,32 @@ Section Locked.
     | _ => False
     end.
 
-  Definition inv_at (st : state) (s : side) (ws wo : list frame_rec) : Prop :=
-    (wire_inv (ep_of st s) (queue st s) ws /\
+  (* the invariant, parametric in the predicate that ties a queue to the frames on it *)
+  Definition inv_atW (W : ep -> bytes -> list frame_rec -> Prop)
+             (st : state) (s : side) (ws wo : list frame_rec) : Prop :=
+    (W (ep_of st s) (queue st s) ws /\
      link2 s (ep_of st s) (ep_of st (other s)) ws wo) /\
-    (wire_inv (ep_of st (other s)) (queue st (other s)) wo /\
+    (W (ep_of st (other s)) (queue st (other s)) wo /\
      link2 (other s) (ep_of st (other s)) (ep_of st s) wo ws).
 
-  Definition Inv (st : state) : Prop := exists wa wb, inv_at st SA wa wb.
+  Definition InvW W (st : state) : Prop := exists wa wb, inv_atW W st SA wa wb.
 
-  Lemma inv_at_swap st s ws wo : inv_at st s ws wo -> inv_at st (other s) wo ws.
-  Proof. unfold inv_at. rewrite other_other. tauto. Qed.
+  Lemma inv_atW_swap W st s ws wo : inv_atW W st s ws wo -> inv_atW W st (other s) wo ws.
+  Proof. unfold inv_atW. rewrite other_other. tauto. Qed.
 
-  Lemma Inv_at st s : Inv st -> exists ws wo, inv_at st s ws wo.
+  Lemma InvW_at W st s : InvW W st -> exists ws wo, inv_atW W st s ws wo.
   Proof.
-    intros (wa & wb & H). destruct s; [eauto|]. exists wb, wa. apply (inv_at_swap _ SA). exact H.
+    intros (wa & wb & H). destruct s; [eauto|]. exists wb, wa. apply (inv_atW_swap W _ SA). exact H.
   Qed.
-  Lemma at_Inv st s ws wo : inv_at st s ws wo -> Inv st.
+  Lemma at_InvW W st s ws wo : inv_atW W st s ws wo -> InvW W st.
   Proof.
-    intros H. destruct s; [exists ws, wo; exact H|]. exists wo, ws. apply (inv_at_swap _ SB). exact H.
+    intros H. destruct s; [exists ws, wo; exact H|]. exists wo, ws. apply (inv_atW_swap W _ SB). exact H.
   Qed.
+
+  Definition inv_at := inv_atW wire_inv.
+  Definition Inv := InvW wire_inv.
+  Definition Inv_at st s : Inv st -> exists ws wo, inv_at st s ws wo := InvW_at wire_inv st s.
+  Definition at_Inv st s ws wo : inv_at st s ws wo -> Inv st := at_InvW wire_inv st s ws wo.
 
   (* ---- consequences used in several cases ---- *)
   Lemma out_ok_call s es eo x : out_ok s es eo x -> m_mtype (fr_msg x) = x01 ->
